@@ -166,26 +166,33 @@ def run_schedule(case, ctx, workdir):
     gtfs = case["gtfs"]
     # materialise GTFs: process i uses file gtf_path[i] with content index content[i]
     paths = {}
-    for i in range(n):
-        gp = os.path.join(workdir, "ann_%d.gtf" % case["gtf_file"][i])
-        if gp not in paths:
-            with real_open(gp, "w") as f:
-                f.write(gtfs[case["gtf_file"][i]])
-            paths[gp] = case["gtf_file"][i]
+    for k_ in sorted(set(case["gtf_file"]) | set(case.get("history", []))):
+        # the annotations have the same file name in different folders (v0/ann.gtf, v1/ann.gtf, ...)
+        gp = os.path.join(workdir, "v%d" % k_, "ann.gtf")
+        os.makedirs(os.path.dirname(gp), exist_ok=True)
+        with real_open(gp, "w") as f:
+            f.write(gtfs[k_])
+        paths[gp] = k_
+
+    def make_args(out, k_):
+        args = Args()
+        os.makedirs(out, exist_ok=True)
+        args.output = out
+        args.genedb = os.path.join(workdir, "v%d" % k_, "ann.gtf")
+        args.genedb_filename = os.path.join(out, "ann.db")
+        args.clean_start = False
+        args.complete_genedb = True
+        args.gtf_check = True
+        return args
 
     def body(i):
         tid_of[threading.get_ident()] = i
         try:
             sched.wait_turn(i)
-            args = Args()
-            out = os.path.join(workdir, "out_%d" % i)
-            os.makedirs(out, exist_ok=True)
-            args.output = out
-            args.genedb = os.path.join(workdir, "ann_%d.gtf" % case["gtf_file"][i])
-            args.genedb_filename = os.path.join(out, "ann.db")
-            args.clean_start = False
-            args.complete_genedb = True
-            args.gtf_check = True
+            reuse = (case.get("reuse") or [None] * n)[i]
+            out = os.path.join(workdir, "hist_%d" % reuse) if reuse is not None else \
+                os.path.join(workdir, "out_%d" % i)
+            args = make_args(out, case["gtf_file"][i])
             isoquant.set_configs_directory(args)
             sched.yield_(i, "before-conversion")
             db = g.convert_gtf_to_db(args)
@@ -194,7 +201,8 @@ def run_schedule(case, ctx, workdir):
             import gffutils
             d = gffutils.FeatureDB(db)
             got = sorted(t.id for t in d.features_of_type("transcript"))
-            outcomes[i] = {"ok": True, "db": db, "transcripts": got}
+            outcomes[i] = {"ok": True, "db": db, "transcripts": got,
+                           "foreign_db": not os.path.abspath(db).startswith(os.path.abspath(out) + os.sep)}
         except Abort:
             outcomes[i] = {"ok": False, "error": "Abort", "msg": "scheduler aborted"}
         except BaseException as e:
@@ -227,6 +235,11 @@ def run_schedule(case, ctx, workdir):
     import logging
     logging.getLogger("IsoQuant").setLevel(logging.CRITICAL)
     try:
+        # earlier, finished runs under the same HOME (they fill the cache); not scheduled
+        for j, k_ in enumerate(case.get("history", [])):
+            hargs = make_args(os.path.join(workdir, "hist_%d" % j), k_)
+            isoquant.set_configs_directory(hargs)
+            g.convert_gtf_to_db(hargs)
         threads = [threading.Thread(target=body, args=(i,), daemon=True) for i in range(n)]
         for t in threads:
             t.start()
@@ -270,8 +283,16 @@ def schedules(draw, max_n=4):
     n_ann = draw(st.integers(1, n))
     gtf_file = [draw(st.integers(0, n_ann - 1)) for _ in range(n)]
     sched = draw(st.lists(st.integers(0, max_n - 1), min_size=0, max_size=120 if max_n <= 4 else 240))
+    # history: 0-2 finished runs; one concurrent run may write into the folder of a finished run (its own output
+    # folder, separate from the folders of the other concurrent runs)
+    history = [draw(st.integers(0, n_ann - 1)) for _ in range(draw(st.sampled_from([0, 0, 1, 2])))]
+    reuse = [None] * n
+    free = list(range(len(history)))
+    for i in range(n):
+        if free and draw(st.integers(0, 2)) == 0:
+            reuse[i] = free.pop(draw(st.integers(0, len(free) - 1)))
     return {"n": n, "gtfs": [tiny_gtf(k) for k in range(n_ann)], "gtf_file": gtf_file, "schedule": sched,
-            "flush_each": draw(st.booleans())}
+            "flush_each": draw(st.booleans()), "history": history, "reuse": reuse}
 
 
 def eval_schedule(case, ctx):
@@ -321,7 +342,8 @@ def eval_schedule(case, ctx):
                               {"process": i, "error": o["error"], "msg": o["msg"], "n": case["n"],
                                "trace_tail": [list(x) for x in trace[-12:]]}, case)
             elif o["transcripts"] != expected[i]:
-                ctx.violation("C20:run-uses-conversion-of-another-annotation",
+                ctx.violation("C20:run-uses-conversion-of-another-annotation" +
+                              (":database-in-another-runs-output-folder" if o.get("foreign_db") else ""),
                               {"process": i, "db": o["db"], "got": o["transcripts"], "expected": expected[i]}, case)
     finally:
         shutil.rmtree(d, ignore_errors=True)
